@@ -252,7 +252,7 @@ func genVals(r *Rng, tier string) *Plan {
 	cfg := genCfg(r, kvKinds, tier)
 	cfg.Dom = []int{3, 4, 6, 8, 12}[r.Intn(5)]
 	cfg.Ctor = ""
-	if cfg.Cmp == "div9" || cfg.Cmp == "mod5" || cfg.Cmp == "len" || cfg.Cmp == "fold" {
+	if cfg.Cmp == "div9" || cfg.Cmp == "mod5" || cfg.Cmp == "len" || cfg.Cmp == "fold" || cfg.Cmp == "ext" {
 		cfg.Cmp = "rev"
 	}
 	shape := valShapes[r.Intn(len(valShapes))]
